@@ -44,6 +44,14 @@ def log(*a):
 class Scratch:
     def __init__(self):
         self.dir = tempfile.mkdtemp(prefix="verif-")
+        # everything the child processes (go build, harness, TLC) put into their temporary directory goes with the
+        # scratch directory, also when a child dies half-way
+        tmp = os.path.join(self.dir, "tmp")
+        os.makedirs(tmp, exist_ok=True)
+        os.environ["TMPDIR"] = tmp
+        jto = os.environ.get("JAVA_TOOL_OPTIONS", "")
+        if "java.io.tmpdir" not in jto:
+            os.environ["JAVA_TOOL_OPTIONS"] = (jto + " -Djava.io.tmpdir=" + tmp).strip()
 
     def path(self, *p):
         return os.path.join(self.dir, *p)
@@ -93,7 +101,7 @@ def run_tlc(scratch, module, cfg, workers=8, timeout=900, extra=(), files=None, 
            "-config", cfg] + list(extra) + [module + ".tla"]
     env = dict(os.environ)
     if java_opts:
-        env["JAVA_TOOL_OPTIONS"] = java_opts
+        env["JAVA_TOOL_OPTIONS"] = (env.get("JAVA_TOOL_OPTIONS", "") + " " + java_opts).strip()
     t0 = time.time()
     rest = []
     n = 0
@@ -133,6 +141,18 @@ def tlc_ok(res, what):
 
 
 # --------------------------------------------------------------------------- replay
+LAST_CONTEXT = {}
+
+
+def context_of(key):
+    """The case lines that ran in one process up to and including the case with this key (last replay that had it)."""
+    c = LAST_CONTEXT.get(key)
+    if c is None:
+        return None
+    share, pos = c
+    return share[:pos + 1]
+
+
 def replay(harness, cases_path, results_path, nworkers=NCPU, limit="5s", extra_args=(), obs_path=None, cmd="replay"):
     """Feeds the cases to nworkers single-goroutine harness processes (round robin).
     A worker that meets a hang exits with 3 after reporting it; the remaining cases of
@@ -165,6 +185,9 @@ def replay(harness, cases_path, results_path, nworkers=NCPU, limit="5s", extra_a
             fo.close()
             with open(outp) as f:
                 got = [json.loads(l) for l in f if l.strip()]
+            # what ran in the same process before each case (to reproduce a failure that depends on it)
+            for pos, g in enumerate(got):
+                LAST_CONTEXT[g.get("key")] = (share, pos)
             results.extend(got)
             os.unlink(inp)
             os.unlink(outp)
@@ -239,12 +262,16 @@ def attribute(res, known_active):
     return None
 
 
-def save_replay(prop, case_line, res):
+def save_replay(prop, case_line, res, context=None):
     os.makedirs(REPLAYS, exist_ok=True)
     h = hashlib.sha1(case_line.encode()).hexdigest()[:12]
     p = os.path.join(REPLAYS, "%s-%s.json" % (prop, h))
+    d = {"property": prop, "case": json.loads(case_line), "observed": res}
+    if context:
+        # the cases that have to run in the same process before it
+        d["context"] = [json.loads(l) for l in context]
     with open(p, "w") as f:
-        json.dump({"property": prop, "case": json.loads(case_line), "observed": res}, f)
+        json.dump(d, f)
     return p
 
 
